@@ -402,6 +402,19 @@ def placeholder(sym: A.Sym, render: str) -> str:
             else:
                 txt = txt[int(body)]
         return txt
+    if "|repr-inner" in render:
+        base = render.replace("|repr-inner", "")
+        return repr(placeholder(sym, base))[1:-1]
+    if render.startswith("format:"):
+        spec = render.split(":", 1)[1]
+        try:
+            if sym.kind == "int":
+                return format((-1 if sym.neg else 1) * (PLACE_INT + sym.uid), spec)
+            if sym.kind == "float":
+                return format((-1 if sym.neg else 1) * (PLACE_INT + sym.uid + 0.5), spec)
+            return format(placeholder(sym, "str"), spec)
+        except Exception:  # noqa: BLE001
+            return placeholder(sym, "str")
     if render == "json":
         import json
         return json.dumps(f"S{sym.uid}x") if sym.kind in ("str", "rawtoken") else placeholder(sym, "str")
@@ -951,6 +964,18 @@ class Family:
                    ("if", [("cmp", "KW_GT", ("id", only), ("lit", b.integer(), False))], self.groups(1), None),
                    "single field shared")
         yield Prog(b.ident("e3"), None, [b.ident("dup"), b.ident("dup")], self.groups(1), "duplicate splitter declaration")
+        # names that differ only in case, declared in both orders (a case-insensitive sort ties on them)
+        for order in (("Uid", "uid"), ("uid", "Uid")):
+            yield Prog(b.ident("e_case"), b.string("salt"), [b.ident(order[0]), b.ident(order[1])], self.groups(2),
+                       f"splitters differing only in case, declared {order}")
+        # numbered names (a 'natural' sort orders them differently from the alphabetical order)
+        yield Prog(b.ident("e_num"), None, [b.ident("shard_10"), b.ident("shard_2"), b.ident("shard_1")], self.groups(1),
+                   "numbered splitter names")
+        # a condition field whose name is a substring of a splitter name
+        sub = b.ident("type")
+        yield Prog(b.ident("e_sub"), None, [b.ident("account_type")],
+                   ("if", [("cmp", "KW_EQ", ("id", sub), ("lit", b.string(), False))], self.groups(1), ("else", self.groups(1))),
+                   "condition field name contained in a splitter name")
         x = b.ident("x_field")
         yield Prog(b.ident("e4"), b.string("salt"), [b.ident("s1")],
                    ("if", [("cmp", "KW_EQ", ("id", x), ("id", x))], self.groups(1), None), "same identifier twice in a predicate")
